@@ -606,8 +606,7 @@ def r5_terminal_recorded(report, repo):
 # ---- R6: executor-internal errors
 
 
-def r6_internal_error(report, repo):
-  rule = 'C01-R6'
+def r6_internal_error(report, repo, rule='C01-R6'):
   report.rule(rule, 'T-ASSIGN on the exceptional exit: an exception escaping '
               'node execution in TestExecutor._thread_proc must leave a terminal '
               '_last_outcome before _execute_test_teardown finalises')
@@ -852,3 +851,5 @@ def run(report, repo):
   from sa.rules import extra4  # pylint: disable=g-import-not-at-top
   report.guard(extra4.with_args_keeps_validators, report, repo, 'C01-R13')
   report.guard(c05.r4_run_if, report, repo, rule='C01-R14')
+  from sa.rules import extra5  # pylint: disable=g-import-not-at-top
+  report.guard(extra5.always_fail_on_every_diagnosis, report, repo, 'C01-R15')
